@@ -16,7 +16,7 @@ import z3
 
 from symx import loader
 from symx.core import Sym, Ctx, symarray, qval, is_nan, OutsideClaim
-from symx.report import fl, concretiser, real_witness
+from symx.report import shaped_model, fl, concretiser, real_witness
 
 FUNCTIONS_Q = ["object_io.write_hvsr_object_to_file", "object_io.read_hvsr_object_from_file", "hvsr_traditional.HvsrTraditional.update_peaks_bounded",
                "hvsr_azimuthal.HvsrAzimuthal.__init__", "hvsr_azimuthal.HvsrAzimuthal.update_peaks_bounded", "window_rejection.frequency_domain_window_rejection"]
@@ -26,7 +26,7 @@ ASSUMPTIONS = ["'%.18e' formatting and strtod round-trip binary64 exactly (numbe
 OUTSIDE = ["bit-for-bit text round trip of the numbers", "azimuths whose repr is not digits.digits (e.g. 1e-05) and adjacent equal azimuths: outside the writer/reader contract (flagged)",
            "more than 3 windows x 4 frequencies, 2 azimuths, 2 history steps"]
 BOUNDS = {"quick": {"windows": "3 (traditional) / 2 per azimuth", "frequencies": 3, "azimuths": 2, "history_steps": "0-1"}, "thorough": {"windows": "3 / 2 per azimuth", "frequencies": 3, "azimuths": 2, "history_steps": "0-2"}}
-INSTANCE_TIMEOUT = {"quick": 230, "thorough": 1500}
+INSTANCE_TIMEOUT = {"quick": 230, "thorough": 700}
 RANGES = [(None, None), (1.5, None), (None, 2.4), (2.6, None)]
 _L = None
 
@@ -50,6 +50,8 @@ def instances(tier):
                 if kind == "diffuse_field" and (steps > 1 or dist == "normal"):
                     continue
                 out.append({"name": f"roundtrip_{kind}_{dist}_h{steps}", "func": "run_roundtrip", "kwargs": {"kind": kind, "dist": dist, "steps": steps}})
+    # azimuths that are not listed in ascending order (legitimate: HvsrAzimuthal(hvsrs, [90, 30]))
+    out.append({"name": "roundtrip_azimuthal_descending_azimuths", "func": "run_roundtrip", "kwargs": {"kind": "azimuthal", "dist": "lognormal", "steps": 1, "azimuths": [90.0, 30.0]}})
     out.append({"name": "azimuth_header_regex", "func": "run_regex", "kwargs": {}})
     return out
 
@@ -79,7 +81,7 @@ class Capture:
         return F()
 
 
-def build(ctx, kind, nw, nf):
+def build(ctx, kind, nw, nf, azimuths=None):
     Ld = L()
     HT = Ld["hvsr_traditional"].HvsrTraditional
     HA = Ld["hvsr_azimuthal"].HvsrAzimuthal
@@ -90,7 +92,7 @@ def build(ctx, kind, nw, nf):
         return HT(frq, amp[0], meta={"processing_method": "traditional", "note": "t"}), amp
     if kind == "azimuthal":
         amp = [symarray(f"a{k}", (nw, nf), ctx, pos="exp") for k in range(2)]
-        return HA([HT(frq, a) for a in amp], [0.0, 67.5], meta={"processing_method": "azimuthal"}), amp
+        return HA([HT(frq, a) for a in amp], list(azimuths or [0.0, 67.5]), meta={"processing_method": "azimuthal"}), amp
     amp = [symarray("a", (1, nf), ctx, pos="exp")]
     return HD(frq, amp[0][0], meta={"processing_method": "diffuse_field"}), amp
 
@@ -137,13 +139,13 @@ def same_value(a, b):
     return float(a) == float(b)
 
 
-def run_roundtrip(rep, tier, kind, dist, steps):
+def run_roundtrip(rep, tier, kind, dist, steps, azimuths=None):
     Ld = L()
     IO = Ld["object_io"]
     nw, nf = (3, 3) if kind == "traditional" else (2, 3)
 
     def run(ctx):
-        h, amps = build(ctx, kind, nw, nf)
+        h, amps = build(ctx, kind, nw, nf, azimuths)
         hist = [step(ctx, h, kind, k) for k in range(steps)]
         if kind != "diffuse_field" and any(int(np.sum(x.valid_window_boolean_mask)) < 2 for x in inner(h)):
             raise OutsideClaim("fewer than two accepted windows")
@@ -171,7 +173,7 @@ def run_roundtrip(rep, tier, kind, dist, steps):
     for ctx, (h, g, amps, hist, (arr, header), stats, mc, sc) in rep.explore(run, max_paths=1200 if tier == "quick" else 8000, timeout_ms=6000):
         def W(m):
             val = concretiser(m)
-            return {"kind": "roundtrip", "obj": kind, "dist": dist, "history": hist, "amplitude": [[[val(x) for x in row] for row in a] for a in amps]}
+            return {"kind": "roundtrip", "obj": kind, "dist": dist, "history": hist, "azimuths": azimuths, "amplitude": [[[val(x) for x in row] for row in a] for a in amps]}
         # structure
         sa, sb = state_of(h, kind), state_of(g, kind)
         ok = type(h) is type(g) and list(map(float, h.frequency)) == list(map(float, g.frequency)) and sa["masks"] == sb["masks"] \
@@ -182,7 +184,7 @@ def run_roundtrip(rep, tier, kind, dist, steps):
         if ok:
             rep.discharged += 1
         else:
-            r, m = ctx.model()
+            r, m = shaped_model(ctx)
             rep.candidate(W(m), f"{kind} after {hist}: type / frequencies / masks / search range / azimuths differ after the round trip ({sa['masks']} {sa['sr']} vs {sb['masks']} {sb['sr']})"[:300], key="state-differs")
             continue
         bad = []
@@ -279,7 +281,7 @@ def replay(spec):
     if kind == "traditional":
         h = hvsrpy.HvsrTraditional(frq, amps[0], meta={"processing_method": "traditional"})
     elif kind == "azimuthal":
-        h = hvsrpy.HvsrAzimuthal([hvsrpy.HvsrTraditional(frq, a) for a in amps], [0.0, 67.5], meta={"processing_method": "azimuthal"})
+        h = hvsrpy.HvsrAzimuthal([hvsrpy.HvsrTraditional(frq, a) for a in amps], spec.get("azimuths") or [0.0, 67.5], meta={"processing_method": "azimuthal"})
     else:
         h = hvsrpy.HvsrDiffuseField(frq, amps[0][0], meta={"processing_method": "diffuse_field"})
     inn = lambda o: o.hvsrs if hasattr(o, "hvsrs") else [o]
@@ -316,6 +318,8 @@ def replay(spec):
         if not (np.array_equal(arr[:, -2], mc) and np.array_equal(arr[:, -1], sc)):
             which = "last azimuth's" if kind == "azimuthal" and np.allclose(arr[:, -2], h.hvsrs[-1].mean_curve(dist)) else "other"
             return {"reproduced": True, "key": f"derived-columns:{kind}", "detail": f"{kind}: file mean/std columns are not the written object's ({which} values): {arr[:, -2].tolist()} vs {np.asarray(mc).tolist()}"[:400]}
+        if kind == "azimuthal" and list(h.azimuths) != list(g.azimuths):
+            return {"reproduced": True, "key": "state-differs", "detail": f"azimuths written {list(h.azimuths)}, read back {list(g.azimuths)}"}
         for x, y in zip(inn(h), inn(g)):
             if not (np.array_equal(x.amplitude, y.amplitude) and np.array_equal(x.valid_window_boolean_mask, y.valid_window_boolean_mask)
                     and np.array_equal(x.valid_peak_boolean_mask, y.valid_peak_boolean_mask) and np.array_equal(x._main_peak_frq, y._main_peak_frq, equal_nan=True)
